@@ -379,6 +379,9 @@ def minimize_lbfgsb(
     if checkpoint is not None:
         sf.nfev = checkpoint.nfev
         sf.ngev = checkpoint.njev
+        # fun, jac and the gradient differences of a checkpoint are scaled values:
+        # keep the factor they were scaled with
+        sf.scaling_factor = checkpoint.get("scaling_factor", 1.0)
 
     # First evaluation of the objective function if no checkpoint provided
     if checkpoint is None:
@@ -417,6 +420,7 @@ def minimize_lbfgsb(
                 message=istate.task_str,
                 x=x,
                 success=istate.is_success,
+                scaling_factor=sf.scaling_factor,
                 hess_inv=LbfgsInvHessProduct(
                     np.diff(np.array(X), axis=0), np.diff(np.array(G), axis=0)
                 ),
@@ -432,6 +436,7 @@ def minimize_lbfgsb(
                 message=istate.task_str,
                 x=x,
                 success=istate.is_success,
+                scaling_factor=sf.scaling_factor,
                 hess_inv=LbfgsInvHessProduct(
                     checkpoint.hess_inv.sk[-maxcor:], checkpoint.hess_inv.yk[-maxcor:]
                 ),
@@ -445,7 +450,7 @@ def minimize_lbfgsb(
 
     # scale the initial gradient and consequently the objective function
     # this is optional and needs to be investigated and documented.
-    if gradient_scaler is not None:
+    if gradient_scaler is not None and checkpoint is None:
         sf.scaling_factor = gradient_scaler(x, grad, lb, ub)
 
         if logger is not None:
@@ -453,8 +458,9 @@ def minimize_lbfgsb(
 
     # print(sf.scaling_factor)
 
-    f0 *= sf.scaling_factor
-    grad = grad * sf.scaling_factor
+    if checkpoint is None:
+        f0 *= sf.scaling_factor
+        grad = grad * sf.scaling_factor
     # Note, no need to further update anything because the scaling is handled by the
     # ScalarFunction instance
 
@@ -636,6 +642,7 @@ def minimize_lbfgsb(
                         message=istate.task_str,
                         x=np.copy(x),
                         success=istate.is_success,
+                        scaling_factor=sf.scaling_factor,
                         hess_inv=LbfgsInvHessProduct(
                             np.atleast_2d(np.diff(np.array(X), axis=0)),
                             np.atleast_2d(np.diff(np.array(G), axis=0)),
@@ -684,6 +691,7 @@ def minimize_lbfgsb(
         message=istate.task_str,
         x=x,
         success=istate.is_success,
+        scaling_factor=sf.scaling_factor,
         hess_inv=LbfgsInvHessProduct(
             np.atleast_2d(np.diff(np.array(X), axis=0)),
             np.atleast_2d(np.diff(np.array(G), axis=0)),
